@@ -35,7 +35,7 @@ VARIABLES l,       \* next event
           divs,    \* divergences found (sequence, capped)
           cnt,     \* counters: [name |-> Nat]
           flags,   \* antecedents seen in the current run (set of strings)
-          vtag     \* per variable: how it was last written ("plain" | "index-path" | "closure" | "del" | "dflt")
+          vtag     \* per variable: how it was last written ("plain" | "index-path" | "field-path" | "closure" | "del" | "dflt")
 
 tvars == <<l, k, vars, prog, run, mode, viols, divs, cnt, flags, vtag>>
 
@@ -158,7 +158,8 @@ TagNow == IF InClosure THEN "closure" ELSE "plain"
 SetTag(t, x, v) == [y \in (DOMAIN t) \cup {x} |-> IF y = x THEN v ELSE t[y]]
 \* (an assignment through a path with an index segment can pad the array with nulls: named separately)
 HasIndexSeg(p) == \E j \in 1..Len(p) : "i" \in DOMAIN p[j]
-TagTarget(t, tg) == IF tg.tk = "var" THEN SetTag(t, tg.x, IF TagNow = "plain" /\ HasIndexSeg(tg.p) THEN "index-path" ELSE TagNow) ELSE t
+TagTarget(t, tg) == IF tg.tk = "var" THEN SetTag(t, tg.x, IF TagNow = "plain" /\ HasIndexSeg(tg.p) THEN "index-path"
+                                                         ELSE IF TagNow = "plain" /\ tg.p # <<>> THEN "field-path" ELSE TagNow) ELSE t
 VtagAfter(f, out) ==
   LET n == f.n IN
   CASE n.k = "asg" /\ IsOk(out) -> TagTarget(vtag, n.tg)
